@@ -21,8 +21,8 @@ ID = "C19"
 LEVEL = "exploration"
 DESIGN_REF = "DESIGN.md 4/C19"
 RULE = (
-    "case = (configuration, operation, outside file, replacement): the 16 trees of C10 plus 6 trees with sibling versions / colliding "
-    "port-IDs in lookup roots, and every acyclic 3-node graph of two C09 assignments; operations read_namespace and read_files for "
+    "case = (configuration, operation, outside file, replacement): the 16 trees of C10 plus 10 trees with sibling versions, port-IDs "
+    "shared between a target and unrelated definitions, same-identity twins in another directory / file, and every acyclic 3-node graph of two C09 assignments; operations read_namespace and read_files for "
     "every single target and the full target set; every definition file that ref.ns places outside the closure (lookup roots; for "
     "read_files also the targets' own roots) x 42 replacement texts (token garbage, one per static-rule class, failing assert, @print, "
     "another kind / sealing / extent than its sibling versions, references to missing or cyclic types, huge / empty / binary text). "
@@ -53,6 +53,12 @@ def extra_configs():
     C["same-root-other-versions"] = {"root": "ra", "lookups": [], "defs": [D("ra", "ra.A", (1, 0), [("ra.B", (1, 0))]), D("ra", "ra.B", (1, 0)), D("ra", "ra.B", (1, 1)), D("ra", "ra.C", (1, 0), [("ra.B", (1, 1))]), D("ra", "ra.s.D", (1, 0))]}
     C["lookup-with-own-deps"] = {"root": "ra", "lookups": ["rb", "rc"], "defs": [D("ra", "ra.A", (1, 0), [("rb.X", (1, 0))]), D("rb", "rb.X", (1, 0)), D("rb", "rb.W", (1, 0), [("rc.V", (1, 0))]), D("rc", "rc.V", (1, 0)), D("rc", "rc.U", (1, 0), [("rb.W", (1, 0))])]}
     C["no-references"] = {"root": "ra", "lookups": ["rb"], "defs": [D("ra", "ra.A", (1, 0)), D("ra", "ra.B", (1, 0)), D("rb", "rb.X", (1, 0)), D("rb", "rb.s.Y", (1, 0))]}
+    # a target with a fixed port-ID; unrelated definitions carrying the same number live in a same-named lookup root / elsewhere in its own root
+    C["target-port-vs-lookup-port"] = {"root": "p/ra", "lookups": ["q/ra"], "defs": [D("p/ra", "ra.A", (1, 0), port=6200), D("p/ra", "ra.B", (1, 0)), D("q/ra", "ra.Foreign", (1, 0), port=6200), D("q/ra", "ra.G", (1, 0)), D("q/ra", "ra.s.H", (2, 0), port=6200)]}
+    C["same-root-port-siblings"] = {"root": "ra", "lookups": [], "defs": [D("ra", "ra.A", (1, 0), port=6200), D("ra", "ra.legacy.Old", (1, 0), port=6200), D("ra", "ra.legacy.Older", (0, 1), port=6200), D("ra", "ra.C", (1, 0))]}
+    # same-identity twins: the same full name and version in another directory / file, never referenced
+    C["twin-in-lookup-root"] = {"root": "p/ra", "lookups": ["q/ra"], "defs": [D("p/ra", "ra.A", (1, 0)), D("p/ra", "ra.B", (1, 0), [("ra.C", (1, 0))]), D("q/ra", "ra.A", (1, 0)), D("q/ra", "ra.C", (1, 0)), D("q/ra", "ra.B", (1, 0))]}
+    C["twin-in-same-root"] = {"root": "ra", "lookups": [], "defs": [D("ra", "ra.A", (1, 0)), D("ra", "ra.A", (1, 0), port=6200), D("ra", "ra.B", (1, 0))]}
     C["target-fails"] = {"root": "ra", "lookups": ["rb"], "defs": [D("ra", "ra.A", (1, 0), text="uint8 a\n@assert false\n@sealed\n"), D("rb", "rb.X", (1, 0)), D("rb", "rb.Y", (1, 0))]}
     return C
 
